@@ -1,5 +1,5 @@
 /-
-Drv/C02 — line-protocol handler for the call life-cycle scripts (`c02 proto=… lim=… cap=… res=… ops=…`).
+Drv/C02 — line-protocol handler for the call life-cycle scripts (`c02 proto=… lim=… cap=… res=… dok=… ops=…`).
 The script is executed on the transition system of Model/CallLife: every script operation is an
 environment label (or a gate hold), followed by `settle` (all enabled internal steps, in the fixed
 candidate order); `obs`/`obsf` print the canonical snapshot that harness/cmd/conform/c02.go prints.
@@ -34,8 +34,6 @@ def statClass (n : Nat) : String :=
 
 def showCall (c : Call) : String :=
   if c.pc ≠ .returned then s!"0:{c.chanSends}:incall"
-  else if c.nilRet then
-    (if c.chanSends > 0 then s!"0:{c.chanSends}:nilcmd/{statClass c.stat}" else s!"0:{c.chanSends}:nilcmd")
   else if c.doneCount ≥ 1 then s!"1:{c.chanSends}:{statClass c.stat}"
   else s!"0:{c.chanSends}:-"
 
@@ -52,8 +50,11 @@ def snapshot (s : State) : String :=
     | _ => "0"
   s!"calls={calls} pend={pend} closed={closed} closeret={cr} dblk={s.calls.countP doneBlocked}"
 
-/-- decode outcome of the scripted reply kinds for a non-bytes result (the bytes case is in `fire`). -/
-def frameOf (kind : String) (seq : Nat) : Option Frame :=
+/-- decode outcome of the scripted reply kinds for a non-bytes result (the bytes case is in `fire`).
+    `dok` = the "undecodable" kinds that the real codec decodes into this case's result type after
+    all (field `dok` of the case line, computed by the generator with the real codecs). -/
+def frameOf (dok : List String) (kind : String) (seq : Nat) : Option Frame :=
+  if dok.contains kind then some (.reply seq .ok 0) else
   match kind with
   | "ok" => some (.reply seq .ok 0)
   | "st" => some (.reply seq .ok 500)
@@ -77,12 +78,12 @@ def splitOp (op : String) : String × String :=
 def isCall (op : String) : Bool :=
   op == "call" || op == "callx" || op == "callv" || op == "callbig" || op.startsWith "callcut"
 
-def stepOp (m : Sim) (res : String) (capn : Nat) (bigPanics : Bool) (op0 : String) : Option Sim :=
+def stepOp (m : Sim) (res : String) (dok : List String) (capn : Nat) (tooBig : Bool) (op0 : String) : Option Sim :=
   let (op, arg) := splitOp op0
   if isCall op then
     let i := m.s.calls.length
     let m1 := if op.startsWith "callcut" then { m with cutIdx := some i } else m
-    m1.env (.issue (op == "callv") (op == "callx") (op == "callbig" && bigPanics) (res == "bytes") capn)
+    m1.env (.issue (op == "callv") (op == "callx") (op == "callbig" && tooBig) (res == "bytes") capn)
   else if op == "rraw" then m.env (.frame .garbage)
   else if op.startsWith "rt" then m.env .lose
   else if op == "cut" || op == "rclose" then m.env .lose
@@ -96,7 +97,7 @@ def stepOp (m : Sim) (res : String) (capn : Nat) (bigPanics : Bool) (op0 : Strin
   else if op.startsWith "r" then
     let k := (op.drop 1).toString
     let kind := if k.startsWith "b" && !(k.startsWith "bad") then (k.drop 1).toString else k
-    match seqOf arg, frameOf kind 0 with
+    match seqOf arg, frameOf dok kind 0 with
     | some q, some f =>
       let f' := match f with
         | .reply _ d r => Frame.reply q d r
@@ -105,19 +106,19 @@ def stepOp (m : Sim) (res : String) (capn : Nat) (bigPanics : Bool) (op0 : Strin
     | _, _ => none
   else none
 
-def runOps (res : String) (capn : Nat) (bigPanics : Bool) : Sim → List String → Option Sim
+def runOps (res : String) (dok : List String) (capn : Nat) (tooBig : Bool) : Sim → List String → Option Sim
   | m, [] => some m
-  | m, op :: rest => (stepOp m res capn bigPanics op).bind (fun m' => runOps res capn bigPanics m' rest)
+  | m, op :: rest => (stepOp m res dok capn tooBig op).bind (fun m' => runOps res dok capn tooBig m' rest)
 
 def c02 (f : Fields) : String :=
   match f.get "res", f.nat "cap", f.get "proto", f.nat "lim", f.get "ops" with
   | some res, some capn, some proto, some lim, some ops =>
     if capn = 0 then "bad-case" else
-    -- jsonproto's Pack panics when the 4096-byte request exceeds the size limit; rawproto returns the error
-    let bigPanics := proto == "json" && lim != 0 && lim < 4096
+    -- the 4096-byte request exceeds the size limit: jsonproto's Pack returns the error (write fails, 104)
+    let tooBig := proto == "json" && lim != 0 && lim < 4096
     let bigErr := proto == "raw" && lim != 0 && lim < 4096
     if bigErr then "unsupported" else
-    match runOps res capn bigPanics { s := State.init } (ops.splitOn ",") with
+    match runOps res (((f.get "dok").getD "-").splitOn "+") capn tooBig { s := State.init } (ops.splitOn ",") with
     | some m =>
       if m.s.crashed then "crash:close-of-closed-channel"
       else " ; ".intercalate m.out.reverse
